@@ -1343,6 +1343,8 @@ func main() {
 			decisionFunc("driver/generic/sendwithcallbacks.go", "Callback.check"))
 		fmt.Fprintf(&sw, "(* transport/telnet.go Telnet.handleControlCharResponse *)\nDefinition telnet_handle_code : list dstmt :=\n  %s.\n",
 			decisionFunc("transport/telnet.go", "Telnet.handleControlCharResponse"))
+		fmt.Fprintf(&sw, "(* transport/standard.go Standard.openBase *)\nDefinition standard_open_base_code : list dstmt :=\n  %s.\n",
+			decisionFunc("transport/standard.go", "Standard.openBase"))
 		sp := filepath.Join(filepath.Dir(*out), "GeneratedSkel.v")
 		olds, _ := os.ReadFile(sp)
 		if !bytes.Equal(olds, sw.Bytes()) {
